@@ -7,7 +7,7 @@ import replay_arith
 BIN = ["+", "-", "*", "/", "//", "div", "mod", "rem", "**", "^", ">>", "<<", "/\\", "\\/", "max", "min", "xor", "gcd", "atan2", "rdiv"]
 UN = ["-", "+", "abs", "sign", "cos", "sin", "tan", "log", "exp", "sqrt", "acos", "asin", "atan", "float", "truncate", "round", "ceiling", "floor",
       "float_integer_part", "float_fractional_part", "\\"]
-VALS = ["7", "2", "(-7)", "0", "1.5", "(-0.5)", "36028797018963968", "(-36028797018963969)", "100000000000000000000", "3", "(1 rdiv 3)"]
+VALS = ["7", "2", "1", "1.0", "2.0", "(-7)", "0", "1.5", "(-0.5)", "36028797018963968", "(-36028797018963969)", "100000000000000000000", "3", "(1 rdiv 3)"]
 
 
 def term(op, args):
